@@ -18,7 +18,7 @@ from props import reuse as RU
 PID = 'C07'
 HARNESS = 'h_c07'
 HARNESS_EXTRA = ('rec.h', 'reuse.h')
-MODEL_MODULE = 'V.C07.Model'
+MODEL_MODULE = 'V.C07.Run'       # coq/C07/Run.v: the case decoder (admits convertHeuristic for texts without `_heuristic(`) over V.C07.Model
 SIZES = [4096, 16, 32]
 VARIANTS = {('N%d' % n): ({} if n == 4096 else {'POTASSCO_VERIF_BUF_SIZE': n}) for n in SIZES}
 INT_MAX = 2 ** 31 - 1
@@ -70,7 +70,7 @@ def describe(c):
     caller = 'step-wise(accept; parse(Incremental); while more(): parse(Incremental))' if ob & 16 else 'readSmodels(parse(Complete))'
     mv = max_var_field(c)
     lim = 'default(setMaxVar not called)' if mv == 0 else 'setMaxVar(%d)' % (0 if mv == -1 else mv)
-    return 'N=%d claspExt=%d filter=%d maxVar=%s caller=%s reader=%s text=%r' % (n, ob & 1, (ob >> 3) & 1, lim, caller, rd, bytes(x & 255 for x in data).decode('latin-1'))
+    return 'N=%d claspExt=%d%s filter=%d maxVar=%s caller=%s reader=%s text=%r' % (n, ob & 1, ' convertHeuristic=1' if ob & 4 else '', (ob >> 3) & 1, lim, caller, rd, bytes(x & 255 for x in data).decode('latin-1'))
 
 
 # ---------------------------------------------------------------------------------------------------
@@ -376,6 +376,9 @@ def oracle(c, obs):
         return ['harness:buffer-size-variant-mismatch']
     if obs == [-3]:
         return []
+    # option bit 2 (convertHeuristic) is admitted by the harness only for texts without `_heuristic(`: no name is a heuristic predicate, so
+    # the option is INVISIBLE - the reference reader below does not look at it and every symbol line (also one whose name or whose
+    # (atom, name) pair occurred before, in this table or in the table of an earlier step) has to be delivered exactly as without it
     sp = split_obs(obs)
     if sp is None or sp[1]:
         return ['harness:undecodable-observation']
@@ -726,6 +729,66 @@ def pick_max_var(rnd, items):
     return mv if -1 <= mv <= INT_MAX else INT_MAX
 
 
+SYM_NAMES = [b'a', b'b', b'', b'p(1)', b'x y', b'_x', b'_heuristic', b'heuristic(a,sign,1,0)', b'q("a,b")']
+
+
+def r_items_symtab(rnd, ext, inc):
+    """r_items with symbol tables over a FEW names and atoms: one name for two atoms, the same (atom, name) line twice - within one table
+    and, in incremental texts, again in the table of a later step"""
+    names = rnd.sample(SYM_NAMES, rnd.choice([1, 2, 2, 3]))
+    atoms = rnd.sample([1, 2, 3, 5, 4097, INT_MAX], rnd.choice([1, 2, 2, 3]))
+    items = []
+    for k in range(rnd.choice([2, 2, 3]) if inc else 1):
+        st = r_step(rnd, ext, first_inc=(inc and k == 0))
+        first = next(i for i, it in enumerate(st) if it == ('line', [('n', 0)]))
+        st = [it for it in st if it[0] != 'sym']
+        syms = [('sym', rnd.choice(atoms), 32, rnd.choice(names)) for _ in range(rnd.choice([1, 2, 3, 4, 6]))]
+        items += st[:first + 1] + syms + st[first + 1:]
+    return items
+
+
+FIXED_SYMTAB = [
+    (b'1 2 0 0\n0\n2 a\n3 a\n0\nB+\n0\nB-\n0\n1\n', 0, 'two-atoms-one-name'),
+    (b'1 2 0 0\n0\n2 a\n3 b\n2 a\n0\nB+\n0\nB-\n0\n1\n', 0, 'same-line-twice'),
+    (b'90 0\n3 2 2 3 0 0\n0\n2 a\n3 b\n0\nB+\n0\nB-\n0\n1\n90 0\n1 4 1 0 2\n0\n2 a\n4 c\n4 a\n0\nB+\n0\nB-\n0\n1\n', 1, 'later-step'),
+    (b'90 0\n0\n2 a\n0\nB+\n0\nB-\n0\n1\n0\n2 a\n0\nB+\n0\nB-\n0\n1\n0\n2 a\n2 a\n0\nB+\n0\nB-\n0\n1\n', 1, 'three-steps'),
+]
+
+
+def symtab_cases(seed, tier):
+    """reader option convertHeuristic (option bit 2) on texts without `_heuristic(`: invisible (harness/h_c07.cpp, coq/C07/Run.v). Own RNG."""
+    rnd = random.Random(seed * 1000003 + 71)
+    out = []
+
+    def add(data, ob, kind):
+        data = [b for b in data if b != 0]
+        if b'_heuristic(' in bytes(data):
+            return
+        out.append((mk(rnd.choice(SIZES), ob, data), {'kind': kind + ('-stepwise' if ob & 16 else '')}))
+    for t, ob, kind in FIXED_SYMTAB:
+        for o2 in (ob | 4, ob | 4 | 8, ob | 4 | 16, ob | 1 | 4, ob):
+            add(list(t), o2, 'fixed-symtab-' + kind)
+            add(list(t.replace(b'\n', b'\r\n')), o2, 'fixed-symtab-' + kind + '-crlf')
+    for _ in range({'quick': 500, 'thorough': 12000, 'search': 800}.get(tier, 500)):
+        ext = rnd.random() < 0.65
+        ob = (1 if ext else 0) | (4 if rnd.random() < 0.85 else 0) | (8 if rnd.random() < 0.3 else 0) | (16 if rnd.random() < 0.4 else 0)
+        style = rnd.choice(['lf', 'lf', 'crlf', 'wild', 'general'])
+        r = rnd.random()
+        if r < 0.3:
+            # the ordinary programs (random names) with the option
+            add(render(r_items(rnd, ext), rnd, style), ob | 4, 'heuopt-valid-' + style)
+            continue
+        inc = ext and rnd.random() < 0.7
+        d = render(r_items_symtab(rnd, ext, inc), rnd, style)
+        if r < 0.85:
+            add(d, ob, 'symtab-repeats-' + ('inc' if inc else 'plain'))
+        elif r < 0.93:
+            add(d[:rnd.randrange(len(d) + 1)], ob, 'symtab-repeats-truncated')
+        else:
+            add(d + list(rnd.choice(EXTRA_GARBAGE)), ob, 'symtab-repeats-extra')
+    return out
+
+
 def gen(seed, tier):
     rnd = random.Random(seed * 1000003 + 7)
     total = {'quick': 3400, 'thorough': 130000, 'search': 6000}.get(tier, 3400)
@@ -837,7 +900,7 @@ def gen(seed, tier):
             toks = [rnd.choice(['0', '1', '2', '3', '5', '6', '8', '90', '91', '92', 'B+', 'B-', 'E', 'a', '4294967295', '2147483648', '-1', '\n', '\r\n', ' '])
                     for _ in range(rnd.randint(1, 30))]
             add(list(' '.join(toks).encode()), ob, 'soup')
-    return out
+    return out + symtab_cases(seed, tier)
 
 
 def shrink(case, fails):
@@ -888,7 +951,7 @@ def mutate(case, rnd):
     return res
 
 
-RULE = ('cases = (buffer size N in {4096,16,32}, options claspExt x filter, caller = readSmodels (parse(Complete)) or the step-wise API '
+RULE = ('cases = (buffer size N in {4096,16,32}, options claspExt x filter (x convertHeuristic on texts without `_heuristic(`, where it must be invisible: symbol tables that use one name for two atoms and repeat (atom, name) lines within a table and in later steps of incremental texts), caller = readSmodels (parse(Complete)) or the step-wise API '
         '(accept; parse(Incremental); while more(): parse(Incremental)), the reader\'s atom limit (none, or setMaxVar(n) before reading: n just below / at / '
         'just above the numbers of the text, 1..8, 2^31-2, 2^31-1, 0; fixed texts for every limited and every unlimited position), NUL-free text); texts are rendered from random well-formed '
         '(optionally clasp-extended, optionally multi-step) smodels programs in LF / CRLF / wild-whitespace / general layout and then left valid or '
@@ -901,7 +964,7 @@ RULE = ('cases = (buffer size N in {4096,16,32}, options claspExt x filter, call
 TRUSTED_BASE = ['coq/C09/Spec.v abstract stream (refinement of BufferedStream is C09\'s obligation)',
                 'RuleBuilder modelled abstractly (collects head/body lists and delivers them unchanged)',
                 'props/C07.py reference reader (oracle on the implementation)']
-ASSUMPTIONS = ['Options.cEdge = Options.cHeuristic = false (conversion of special predicates is C08)',
+ASSUMPTIONS = ['Options.cEdge = false, and Options.cHeuristic = false unless the text contains no `_heuristic(` (conversion of special predicates is C08; without a heuristic predicate the option converts nothing and is invisible: coq/C07/Run.v ignores it)',
                'NUL-free input; setMaxVar(n) only with n <= 2^31-1 (beyond that lit() would cast unchecked: outside the domain, answered -3); the limit bounds rule atoms and the head count of '
                'choice / disjunctive rules - symbol-table, compute and E-section atoms are bounded by 2^31-1 whatever the limit (src/smodels.cpp as it is; the four deviations from the literal '
                'property text are known findings maxvar-symbol-table / -compute / -external-section / -head-count, reported under their own oracle signatures)',
@@ -920,7 +983,7 @@ LEVEL_TEXT = ('Machine-checked proofs (Coq) about an executable model of Smodels
               '_rejects_exact / _only_removes / _delivered / _contract / _total): in range then means rule atoms and head counts within 1..vm; the statements without a limit are the instance '
               'vm = 2^31-1 by conversion (c07_default_is_instance). The literal reading of the property (limit on every atom, on no count) is refuted on four shapes '
               '(c07_maxvar_symbol_atom_refuted, c07_maxvar_compute_atom_refuted, c07_maxvar_external_atom_refuted, c07_maxvar_head_count_refuted; known findings). '
-              'The model is tied to the code by differential correspondence at BUF_SIZE 4096/16/32 (incl. general-layout texts) and an independent python reference reader.')
+              'The model is tied to the code by differential correspondence at BUF_SIZE 4096/16/32 (incl. general-layout texts; also with the reader option convertHeuristic on texts without a heuristic predicate, where the option routes every symbol through the reader\'s private name table and must be invisible) and an independent python reference reader.')
 LEVEL_NOTE = 'Trusted: Coq kernel, extraction+driver (sample cross-checked by vm_compute), harness, translator, abstract stream spec (C09).'
 TECHNIQUE = 'Coq proof about an executable model + differential correspondence with the implementation'
 DESIGN_REF = 'DESIGN.md section 5, C07'
